@@ -1,6 +1,7 @@
 package main
 
 import (
+	"encoding/json"
 	"fmt"
 	"os"
 	"os/exec"
@@ -141,6 +142,16 @@ func runSelfTestDiffs(diffs []string, ps *PropSpec, root, repo string, patterns 
 			rec["result"] = "caught"
 		} else {
 			rec["result"] = "MISSED"
+			// a change kept although no contract within reach can see it (reason in its meta.json)
+			if mb, err := os.ReadFile(filepath.Join(filepath.Dir(d), "meta.json")); err == nil {
+				var meta map[string]any
+				if json.Unmarshal(mb, &meta) == nil {
+					if why, ok := meta["documented_miss"].(string); ok && why != "" {
+						rec["result"] = "missed-documented"
+						rec["reason"] = why
+					}
+				}
+			}
 		}
 		fmt.Printf("SELFTEST property=%s change=%s %s\n", ps.ID, rec["change"], rec["result"])
 	}
